@@ -89,6 +89,13 @@ func (fx *vxFix) vxCycle(s vxSym) vxCycObs {
 	o.DevPwm = fx.fs.Val(fx.dev.Pwm)
 	o.FanMin = fx.fan.GetMinPwm()
 	o.FanMax = fx.fan.GetMaxPwm()
+	// configured limits are taken from the configuration, not from what the fan object reports
+	if fx.cfg.Max >= 0 && fx.cfg.Kind == "hwmon" {
+		o.FanMax = fx.cfg.Max
+	}
+	if fx.cfg.Min >= 0 && fx.cfg.NeverStop && fx.cfg.Kind == "hwmon" && o.FanMin < fx.cfg.Min {
+		o.FanMin = fx.cfg.Min
+	}
 	o.Raises = fx.ctl.stats.IncreasedMinPwmCount
 	o.Offset = fx.ctl.minPwmOffset
 	o.Unexp = fx.ctl.stats.UnexpectedPwmValueCount
